@@ -61,10 +61,10 @@ def _key_grammar(ctx, fi, pat, legal, sort_defs):
     meth_alts = set(rx.literal_alternatives(gf['method'].node) or [])
     doc_vars = {k.split('.')[0] for k in DOC_KEYS}
     doc_meths = {k.split('.')[1] for k in DOC_KEYS}
-    ctx.check(var_alts == doc_vars, 'TBL', 'key pattern variables are i, t, r, s',
-              detail_bad=f"pattern accepts variables {sorted(var_alts)}", key="TBL|_sort_custom|vars")
-    ctx.check(meth_alts == doc_meths, 'TBL', 'key pattern methods are ns, sn, ew, we, num',
-              detail_bad=f"pattern accepts methods {sorted(meth_alts)}", key="TBL|_sort_custom|methods")
+    ctx.check(doc_vars <= var_alts, 'TBL', 'key pattern knows the variables i, t, r, s',
+              detail_bad=f"pattern accepts variables {sorted(var_alts)}: {sorted(doc_vars - var_alts)} missing", key="TBL|_sort_custom|vars")
+    ctx.check(doc_meths <= meth_alts, 'TBL', 'key pattern knows the methods ns, sn, ew, we, num',
+              detail_bad=f"pattern accepts methods {sorted(meth_alts)}: {sorted(doc_meths - meth_alts)} missing", key="TBL|_sort_custom|methods")
     L = rx.Lang(pat, 0)
     for k in ('i', 's', 'r', 't', 't.ns', 't.sn', 'r.ew', 'r.we', 's.num', 't.num.rev', 's.rev', 'r.ew.rev', 'i.rev'):
         ctx.check(L.fullmatch(k), 'RX-LANG', f"key syntax accepts {k!r}", detail_bad=f"{k!r} rejected by the key pattern",
@@ -93,7 +93,11 @@ def _key_grammar(ctx, fi, pat, legal, sort_defs):
     if accepted is None:
         ctx.undecided('TBL', 'accepted variable/method pairs', 'legality guard of parse_key not recognised')
     else:
-        extra, missing = accepted - DOC_KEYS, DOC_KEYS - accepted
+        # only a DIRECTION accepted for a documented variable it does not belong
+        # to is a defect; further variables / methods are extensions
+        wrong_dir = {'t': {'ew', 'we'}, 'r': {'ns', 'sn'}, 's': {'ns', 'sn', 'ew', 'we'}, 'i': {'ns', 'sn', 'ew', 'we'}}
+        extra = {k_ for k_ in accepted - DOC_KEYS if k_.split('.')[0] in wrong_dir and k_.split('.')[-1] in wrong_dir[k_.split('.')[0]]}
+        missing = DOC_KEYS - accepted
         ctx.check(not extra, 'TBL', f"no direction is accepted for a variable it does not apply to (via {how})",
                   f"{sorted(accepted)}",
                   f"parse_key lets {sorted(extra)} through: a direction that does not apply to the variable is not "
